@@ -182,7 +182,12 @@ impl ToTokens for MatchArm<'_> {
         // The behavior of `with_span` makes this safe to do; if the child applied an
         // even-more-specific span, our attempt here will not overwrite that and will only cost
         // us one `if` check.
-        let extractor = quote_spanned!(with_callable.span()=>
+        //
+        // Only the location is borrowed: darling's own names (`__inner`, ...) still resolve where
+        // the derive was written, so a receiver assembled by `macro_rules!` may take the field
+        // type or callable from another hygiene context than the `#[derive(..)]` line.
+        let extractor_span = proc_macro2::Span::call_site().located_at(with_callable.span());
+        let extractor = quote_spanned!(extractor_span=>
         ::darling::export::identity::<fn(&::syn::Meta) -> ::darling::Result<_>>(#with_callable)(__inner)
             #post_transform
             .map_err(|e| e.with_span(&__inner).at(#location))
